@@ -151,7 +151,7 @@ def sec6():
         'captured channel does so on every path (C04, C06, C07); the substitute key used for an unknown authid comes from',
         'crypto/rand (C09); a listener\'s zero outbound queue size is replaced by the default in the accept path (C07, C15); the',
         'reply hand-over channel is unbuffered (C16, C17); ConnectNet never hands a nil logger to a transport, the websocket',
-        'ping handler never blocks on the send goroutine (C17); ruleFailCall shared with C06, progressive stickiness with C13.',
+        'control-frame handlers of both send loops never block on the send goroutine (C17); ruleFailCall shared with C06, progressive stickiness with C13.',
         'One round-5 variant (an off-by-one bound on a new serializer table indexed by the handshake byte) is caught by C15',
         'only: C04\'s index rule covers message payload lists, not tables indexed by wire bytes.',
         'Reading for these rounds also turned up four more genuine defects, all reproduced and repaired: D31 (sub-agent',
